@@ -363,6 +363,23 @@ func checkC05History(c *Case, st *Stats) *Failure {
 				l["invoke-cycle"] = true
 				avail, _ := m.Available(fn)
 				okClass := out.Class == ClCycle || (!avail && out.Class == ClDig)
+				// a hole (missing required dependency) somewhere in the
+				// closure may stop resolution before it reaches the cycle;
+				// which of the two is met first is unspecified
+				hole := false
+				for id := range m.MayRun(fn) {
+					if g := m.Fns[id]; g != nil && g.OkExec < 0 {
+						for _, lf := range g.Leaves {
+							if !lf.Opt && !lf.IsGroup && m.ExpectSingle(g, lf.Key) == nil {
+								hole = true
+							}
+						}
+					}
+				}
+				if hole {
+					l["invoke-cycle-with-hole"] = true
+					okClass = true
+				}
 				if !okClass {
 					setFail(&Failure{"missed-cycle-at-invoke", fmt.Sprintf("op %d (%s): resolution traverses the constructor cycle %v but Invoke returned class %s (%v)", i, op.Short(), ci.Path, out.Class, out.Err)})
 				}
@@ -371,7 +388,7 @@ func checkC05History(c *Case, st *Stats) *Failure {
 					onPath[id] = true
 				}
 				for _, e := range tr.Events(i) {
-					if e.Kind == EvEnter && onPath[e.Fn] {
+					if e.Kind == EvEnter && onPath[e.Fn] && !hole {
 						setFail(&Failure{"ran-on-cycle", fmt.Sprintf("op %d: f%d lies on the dependency cycle %v but was executed", i, e.Fn, ci.Path)})
 					}
 				}
